@@ -53,6 +53,7 @@ type fval struct {
 	nilOf  ssa.Value       // bool: "v != nil" for the pointer value v (nilNeg: "== nil")
 	nilNeg bool
 	tuple  []fval
+	addr   string    // a pointer to a tracked local object: the key of the object's cells
 	ref    ssa.Value // an undetermined boolean: the SSA value it was copied from (refined later by branches on that value)
 }
 
@@ -116,6 +117,45 @@ func (fr *fillRun) named(n string, lo int64) lin.Form {
 	return lin.Sym(n)
 }
 
+// stuffingMakers: the same-package functions whose result is stored into a packet's AdaptationField by WriteData or by a
+// helper WriteData calls directly.
+func stuffingMakers(c *Ctx, wd *ssa.Function) map[*ssa.Function]bool {
+	out := map[*ssa.Function]bool{}
+	scan := []*ssa.Function{wd}
+	for _, b := range wd.Blocks {
+		for _, in := range b.Instrs {
+			if call, ok := in.(*ssa.Call); ok {
+				if cal := call.Call.StaticCallee(); cal != nil && cal.Pkg == c.P.SSAPkg && len(cal.Blocks) > 0 {
+					scan = append(scan, cal)
+				}
+			}
+		}
+	}
+	for _, f := range scan {
+		for _, b := range f.Blocks {
+			for _, in := range b.Instrs {
+				st, ok := in.(*ssa.Store)
+				if !ok {
+					continue
+				}
+				fa, ok := st.Addr.(*ssa.FieldAddr)
+				if !ok {
+					continue
+				}
+				if n, ok := ssau.FieldName(fa); !ok || n != "AdaptationField" {
+					continue
+				}
+				if call, ok := st.Val.(*ssa.Call); ok {
+					if cal := call.Call.StaticCallee(); cal != nil && cal.Pkg == c.P.SSAPkg {
+						out[cal] = true
+					}
+				}
+			}
+		}
+	}
+	return out
+}
+
 func c04ExactFill(c *Ctx) {
 	r := c.R
 	const rule = "F1"
@@ -160,20 +200,8 @@ func c04ExactFill(c *Ctx) {
 		return
 	}
 	// the stuffing makers (same derivation as A2/stuffing)
-	for _, b := range wd.Blocks {
-		for _, in := range b.Instrs {
-			if st, ok := in.(*ssa.Store); ok {
-				if fa, ok := st.Addr.(*ssa.FieldAddr); ok {
-					if n, ok := ssau.FieldName(fa); ok && n == "AdaptationField" {
-						if call, ok := st.Val.(*ssa.Call); ok {
-							if cal := call.Call.StaticCallee(); cal != nil && cal.Pkg == c.P.SSAPkg {
-								fr.makers[cal] = true
-							}
-						}
-					}
-				}
-			}
-		}
+	for m := range stuffingMakers(c, wd) {
+		fr.makers[m] = true
 	}
 	fillContracts(c, lk, pes)
 	st := &fstate{env: map[ssa.Value]fval{}, mem: map[string]fval{}}
@@ -333,6 +361,9 @@ func (fr *fillRun) addrKey(st *fstate, v ssa.Value) (string, bool) {
 	case *ssa.Alloc:
 		return "alloc:" + x.Name(), true
 	case *ssa.Parameter:
+		if v, ok := st.env[x]; ok && v.addr != "" {
+			return v.addr, true
+		}
 		return "param:" + x.Name(), true
 	case *ssa.FieldAddr:
 		n, ok := ssau.FieldName(x)
@@ -385,6 +416,8 @@ func (fr *fillRun) val(st *fstate, v ssa.Value) fval {
 		}
 	case *ssa.Parameter:
 		return fval{}
+	case *ssa.Alloc:
+		return fval{isPtr: true, pk: fpUnknown, addr: "alloc:" + c.Name()}
 	}
 	return fval{}
 }
@@ -519,8 +552,15 @@ func (fr *fillRun) assumeBool(st *fstate, v ssa.Value, truth bool) {
 	}
 }
 
+// kont is what happens when an inlined callee returns (nil for the function under analysis itself).
+type kont func(st *fstate, rets []fval)
+
 func (fr *fillRun) walk(b *ssa.BasicBlock, pred *ssa.BasicBlock, st *fstate, depth int) {
-	if depth > 60 || len(fr.bad)+len(fr.unk) > 40 {
+	fr.walkK(b, pred, st, depth, nil)
+}
+
+func (fr *fillRun) walkK(b *ssa.BasicBlock, pred *ssa.BasicBlock, st *fstate, depth int, k kont) {
+	if depth > 80 || len(fr.bad)+len(fr.unk) > 40 {
 		return
 	}
 	idx := 0
@@ -545,6 +585,10 @@ func (fr *fillRun) walk(b *ssa.BasicBlock, pred *ssa.BasicBlock, st *fstate, dep
 			}
 		}
 	}
+	fr.walkFrom(b, idx, st, depth, k)
+}
+
+func (fr *fillRun) walkFrom(b *ssa.BasicBlock, idx int, st *fstate, depth int, k kont) {
 	for ; idx < len(b.Instrs); idx++ {
 		switch in := b.Instrs[idx].(type) {
 		case *ssa.DebugRef:
@@ -552,11 +596,11 @@ func (fr *fillRun) walk(b *ssa.BasicBlock, pred *ssa.BasicBlock, st *fstate, dep
 			cv := fr.val(st, in.Cond)
 			follow := func(side int, s2 *fstate) {
 				nb := b.Succs[side]
-				if nb == fr.header {
+				if nb == fr.header && k == nil {
 					fr.judgeDrop(s2) // next iteration without writePacket: the packet under construction is given up
 					return
 				}
-				fr.walk(nb, b, s2, depth+1)
+				fr.walkK(nb, b, s2, depth+1, k)
 			}
 			if cv.isBool && cv.b >= 0 {
 				follow(1-cv.b, st)
@@ -598,13 +642,20 @@ func (fr *fillRun) walk(b *ssa.BasicBlock, pred *ssa.BasicBlock, st *fstate, dep
 			}
 			return
 		case *ssa.Jump:
-			if b.Succs[0] == fr.header {
+			if b.Succs[0] == fr.header && k == nil {
 				fr.judgeDrop(st)
 				return
 			}
-			fr.walk(b.Succs[0], b, st, depth+1)
+			fr.walkK(b.Succs[0], b, st, depth+1, k)
 			return
 		case *ssa.Return:
+			if k != nil {
+				var rets []fval
+				for _, rv := range in.Results {
+					rets = append(rets, fr.val(st, rv))
+				}
+				k(st, rets)
+			}
 			return
 		case *ssa.Store:
 			k, ok := fr.addrKey(st, in.Addr)
@@ -623,11 +674,44 @@ func (fr *fillRun) walk(b *ssa.BasicBlock, pred *ssa.BasicBlock, st *fstate, dep
 				st.env[in] = fval{tuple: []fval{{isInt: true, f: fr.sym("written", 0)}, {isPtr: true, pk: fpNil}}}
 				continue
 			}
+			// a helper of the package that works on the packet under construction (or returns an adaptation field): inlined
+			if cal := in.Call.StaticCallee(); cal != nil && cal.Pkg == fr.c.P.SSAPkg && len(cal.Blocks) > 0 && fr.inlinable(st, in, cal) && depth < 60 {
+				for i, prm := range cal.Params {
+					if i < len(in.Call.Args) {
+						st.env[prm] = fr.val(st, in.Call.Args[i])
+					}
+				}
+				callInstr, blk, next := in, b, idx+1
+				fr.walkK(cal.Blocks[0], nil, st, depth+1, func(s2 *fstate, rets []fval) {
+					switch len(rets) {
+					case 0:
+					case 1:
+						s2.env[callInstr] = rets[0]
+					default:
+						s2.env[callInstr] = fval{tuple: rets}
+					}
+					fr.walkFrom(blk, next, s2, depth+1, k)
+				})
+				return
+			}
 			st.env[in] = fr.call(st, in)
 		case ssa.Value:
 			st.env[in] = fr.eval(st, in)
 		}
 	}
+}
+
+// inlinable: the callee is handed the address of a tracked local object (the packet under construction).
+func (fr *fillRun) inlinable(st *fstate, in *ssa.Call, cal *ssa.Function) bool {
+	if fr.makers[cal] || cal.Name() == "writePacket" || cal.Name() == "writePESData" {
+		return false
+	}
+	for _, a := range in.Call.Args {
+		if v := fr.val(st, a); v.addr != "" {
+			return true
+		}
+	}
+	return false
 }
 
 func isBoolType(t types.Type) bool {
@@ -664,7 +748,7 @@ func (fr *fillRun) assumeCmp(st *fstate, c *fcmp, truth bool) bool {
 func (fr *fillRun) eval(st *fstate, v ssa.Value) fval {
 	switch x := v.(type) {
 	case *ssa.Alloc:
-		return fval{}
+		return fval{isPtr: true, pk: fpUnknown, addr: "alloc:" + x.Name()}
 	case *ssa.FieldAddr, *ssa.IndexAddr:
 		return fval{}
 	case *ssa.UnOp:
